@@ -135,6 +135,34 @@ pub fn dispatch(ctx: &mut Ctx, op: &str, call: &Value) -> Option<Value> {
                 Some(_) => out::unsupported(),
             }
         }
+        // next() of a tag iterator, then DynSizedStructure::cast to an arbitrary (possibly unrelated) tag type
+        "cast_item" => {
+            let id = out::arg_u64(call, "it");
+            let t = match ctx.its.get_mut(&id) {
+                None => return Some(out::skipped()),
+                Some(It::Tags(it)) => match it.next() {
+                    None => return Some(out::none()),
+                    Some(t) => t,
+                },
+                Some(_) => return Some(out::unsupported()),
+            };
+            macro_rules! c {
+                ($ty:ty) => {
+                    out::some(refv(ctx, t.cast::<$ty>()))
+                };
+            }
+            use multiboot2::*;
+            match out::arg_str(call, "to") {
+                "end" => c!(EndTag), "cmdline" => c!(CommandLineTag), "bootloader" => c!(BootLoaderNameTag), "module" => c!(ModuleTag),
+                "meminfo" => c!(BasicMemoryInfoTag), "bootdev" => c!(BootdevTag), "mmap" => c!(MemoryMapTag), "vbe" => c!(VBEInfoTag),
+                "framebuffer" => c!(FramebufferTag), "elf" => c!(ElfSectionsTag), "apm" => c!(ApmTag), "efi32" => c!(EFISdt32Tag),
+                "efi64" => c!(EFISdt64Tag), "smbios" => c!(SmbiosTag), "rsdpv1" => c!(RsdpV1Tag), "rsdpv2" => c!(RsdpV2Tag),
+                "network" => c!(NetworkTag), "efi_mmap" => c!(EFIMemoryMapTag), "efi_bs" => c!(EFIBootServicesNotExitedTag),
+                "efi32_ih" => c!(EFIImageHandle32Tag), "efi64_ih" => c!(EFIImageHandle64Tag), "load_base_addr" => c!(ImageLoadPhysAddrTag),
+                "generic" => c!(DynSizedStructure<TagHeader>),
+                _ => out::unsupported(),
+            }
+        }
         "clone" => {
             let id = out::arg_u64(call, "it");
             let to = out::arg_u64(call, "to");
